@@ -654,6 +654,9 @@ func replayFileRT(line []byte, a *Acc) {
 		// ---- XML
 		fx := filepath.Join(dir, fmt.Sprintf("x%d", ci))
 		cases++
+		// (the file already exists and is longer: writing REPLACES a file)
+		longer := append(append(mxj.Maps{}, ms...), ms...)
+		longer.XmlFile(fx)
 		werr := ms.XmlFile(fx)
 		if c.XmlErr {
 			if werr == nil {
@@ -683,7 +686,7 @@ func replayFileRT(line []byte, a *Acc) {
 				if !okr || cat != c.Xml {
 					one("filert:xml:readback-raw", fmt.Sprintf("NewMapsFromXmlFileRaw(%q): %d entries (err %v), raw concatenation %q", c.Xml, len(raws), rerr, cat))
 				}
-				for _, ind := range []string{" ", "\t", "    "} {
+				for _, ind := range []string{"    ", " ", "\t"} { // (longest first: each later file is shorter or equal)
 					fxi := fx + "i"
 					if e := ms.XmlFileIndent(fxi, "", ind); e != nil {
 						one("filert:xml:indent-error", e.Error())
@@ -700,6 +703,7 @@ func replayFileRT(line []byte, a *Acc) {
 		// ---- JSON
 		fj := filepath.Join(dir, fmt.Sprintf("j%d", ci))
 		cases++
+		longer.JsonFile(fj)
 		werr = ms.JsonFile(fj)
 		got, _ := os.ReadFile(fj)
 		if werr != nil || string(got) != c.Json {
@@ -719,7 +723,7 @@ func replayFileRT(line []byte, a *Acc) {
 			if !okr {
 				one("filert:json:readback-raw", fmt.Sprintf("NewMapsFromJsonFileRaw(%q): %d entries (err %v)", c.Json, len(raws), rerr))
 			}
-			for _, ind := range []string{" ", "\t"} {
+			for _, ind := range []string{"   ", " ", "\t"} {
 				fji := fj + "i"
 				if e := ms.JsonFileIndent(fji, "", ind); e != nil {
 					one("filert:json:indent-error", e.Error())
